@@ -49,9 +49,9 @@ PY2V = [
          extern={"arr.dtype": "Ok arr",
                  "can_store(out_type, scalar)": f"{CAN} out_type scalar",
                  "np.min_scalar_type(scalar)": f"{MST} scalar"}),
-    # COO.__init__: `if idx_dtype: if not can_store(idx_dtype, max(shape)): raise ValueError(...)`
+    # COO.__init__: `if idx_dtype: if not can_store(idx_dtype, max(shape, default=0)): raise ValueError(...)`
     dict(name="g_ctor_guard", file=CORE, func="COO.__init__", params=[],
-         selector=("if", "not can_store(idx_dtype, max(shape))")),
+         selector=("if", "not can_store(idx_dtype, max(shape, default=0))")),
     # COO.reshape: idx_dtype = self.coords.dtype; if shape != () and not can_store(...): idx_dtype = min_scalar_type(...)
     dict(name="g_reshape_choice", file=CORE, func="COO.reshape", params=["idx_dtype", "m"], result=["idx_dtype"],
          selector=("if", "shape != () and (not can_store(idx_dtype, max(shape)))"),
@@ -106,6 +106,19 @@ ASSIGN = [
          extern={"x.indices": "Ok xdt", "max(new_compressed_shape)": "Ok mcs", "x.nnz": "Ok nnz"},
          optional=["x.nnz", "max(new_compressed_shape)"]),
 ]
+
+# _coo/common.linear_loc: the dtype of what each `return` yields, as a function of the stored dtype d and of
+# ndim.  The function must consist of `if <test>: return <e>` blocks followed by one `return <e>`; tests and
+# returned expressions are classified by the tables below (anything else fails the generation).  A return of
+# (a row of) `coords` itself keeps the STORED dtype — np.diff then wraps for unsigned types.
+LINEAR_LOC = dict(
+    name="s_linear_loc_dtype", file=COMMON, func="linear_loc",
+    tests={"shape == () and len(coords) == 0": "(ndim =? 0)", "len(shape) == 1": "(ndim =? 1)",
+           "len(shape) == 0": "(ndim =? 0)"},
+    returns={"np.zeros(coords.shape[1:], dtype=np.intp)": "DInt i64",
+             "np.ravel_multi_index(coords, shape)": "DInt i64",
+             "coords[0]": "d", "coords[0, :]": "d", "coords[0].astype(np.intp)": "DInt i64"},
+)
 
 # stmt: exact text (ast.unparse) of the statement holding the expression.
 # what: 'value' (right-hand side of an Assign / the single argument of an Expr call), 'aug' (AugAssign:
@@ -168,6 +181,16 @@ FACT = [
      ["if len(index) != 0 and all((isinstance(ind, slice) and ind == slice(0, dim, 1) "
       "for ind, dim in zip_longest(index, x.shape))):\n    return x"],
      "Definition s_getitem_identity (n start stop step : Z) : bool := (start =? 0) && (stop =? n) && (step =? 1)."),
+    # COO._sort_indices / _sum_duplicates: "already sorted?" and "adjacent duplicates?" are decided by np.diff of
+    # the linear positions, i.e. in the dtype linear_loc returns (LINEAR_LOC below)
+    ("s_already_sorted", CORE, "COO._sort_indices",
+     ["linear = self.linear_loc()", "if (np.diff(linear) >= 0).all():\n    return",
+      "order = np.argsort(linear, kind='mergesort')"],
+     "Definition s_already_sorted (lin : tarr) : bool := forallb (fun v => 0 <=? v) (np_diff lin)."),
+    ("s_dup_mask", CORE, "COO._sum_duplicates",
+     ["linear = self.linear_loc()", "unique_mask = np.diff(linear) != 0",
+      "if unique_mask.sum() == len(unique_mask):\n    return", "unique_mask = np.append(True, unique_mask)"],
+     "Definition s_dup_mask (lin : tarr) : list bool := map (fun v => negb (v =? 0)) (np_diff lin)."),
     # _calc_counts_invidx: dtype of the returned offsets / counts.  Two alternatives (the first whose
     # statements are all present is emitted): intp (current code), or the dtype of `groups` (finding D2,
     # repaired by 5f3fb78 — if it comes back the definition below changes and reduce's theorem breaks)
